@@ -158,6 +158,14 @@ func scenarioRoundTrip(c *vrun.Ctx) {
 			cfg := freshConfig()
 			st, err := UpdatePartialFromConfig(cfg, d)
 			vsched.Quiesce()
+			if apiOffDashboardOn(d) {
+				// the one combination of table values under which the process cannot start (main.startWebServer
+				// refuses it): it has to be rejected; C18's main/startup scenario judges the start itself
+				if err == nil && st != UpdateStatusFailed {
+					problem, kind = "webserver.api_disabled=true was accepted while the dashboard is enabled: the next start panics", "unworkable-config-accepted/webserver.api_disabled"
+				}
+				return
+			}
 			if err != nil || st == UpdateStatusFailed {
 				problem, kind = fmt.Sprintf("a valid configuration was rejected: %v", err), "valid-config-rejected/"+firstKey(desc)
 				return
@@ -875,4 +883,14 @@ func positionClass(pos string, sections []string) string {
 		return "unknown-key"
 	}
 	return "property"
+}
+
+func apiOffDashboardOn(d map[string]any) bool {
+	ws, _ := d["webserver"].(map[string]any)
+	if ws == nil {
+		return false
+	}
+	api, _ := ws["api_disabled"].(bool)
+	dash, _ := ws["dashboard_disabled"].(bool)
+	return api && !dash
 }
